@@ -1,6 +1,6 @@
 """C20 -- DOT export and listing describe the scheduler tree faithfully."""
 
-from . import dotrules, graphrules
+from . import dotrules, graphrules, common
 
 
 def check(ctx, rep):
@@ -13,8 +13,12 @@ def check(ctx, rep):
         "that cluster, atomic end points inside clusters; node statements only for atomic jobs, subgraphs "
         "named cluster*. R20.3 ids assigned before use in dot_format and list(); the nested numbering hook "
         "takes one id and continues into its members. R20.4 raises reachable from dot_format. R20.5 the "
-        "emitted fragments are statements of the DOT subset and braces balance on every path.")
+        "emitted fragments are statements of the DOT subset and braces balance on every path. R20.6 styles are "
+        "per job: no mutable object bound at class level is mutated through an instance or an alias of it. R20.7 "
+        "the id templates yield DOT identifiers (zero padding only, no white space).")
     rep.declined = ["validity for every label string beyond the quoter's contract; the flag->style constants; "
                     "what `dot` renders"]
     rep.trusted = ["DOT grammar subset (graph, subgraph, node, edge, attribute list)"]
     dotrules.dot(ctx, rep, "R20.1", "R20.2", "R20.3", "R20.4", "R20.5")
+    common.no_shared_class_state(ctx, rep, "R20.6")
+    dotrules.id_alphabet(ctx, rep, "R20.7")
